@@ -443,7 +443,7 @@ def run_harness(member, args, stdin_path=None, stdout_path=None, timeout=3600, e
     e = dict(os.environ)
     e.setdefault("RUST_BACKTRACE", "0")
     if COVERAGE:
-        e["LLVM_PROFILE_FILE"] = os.path.join(COVERAGE, "prof", args[0] + "-%p-%8m.profraw")
+        e["LLVM_PROFILE_FILE"] = os.path.join(os.environ.get("VERIF_COVERAGE_PROF", os.path.join(COVERAGE, "prof")), args[0] + "-%p-%8m.profraw")
     if env:
         e.update(env)
     fin = open(stdin_path) if stdin_path else subprocess.DEVNULL
